@@ -275,7 +275,8 @@ let node_cfg (p : string array) : Node.ncfg =
     c_claims = parse_ranges (S.concat "/" (split '/' p.(6)));
     c_key = nz p.(7);
     c_trusted = (if p.(8) = "-" then [] else L.map nz (split '+' p.(8)));
-    c_algos = parse_algos p.(9) }
+    c_algos = parse_algos p.(9);
+    c_hkfault = (Array.length p > 10 && p.(10) = "hkf") }
 
 let node_op tok : NodeSys.sop * (BinNums.coq_N * BinNums.coq_N) list =
   let (body, salts) = split_once '@' tok in
